@@ -4,7 +4,7 @@
     The code side is regenerated from src/assembler.rs and src/ebpf.rs on every run; the parser is the
     hand-written model theories/AsmParser.v (tied to src/asm_parser.rs by the correspondence). *)
 From Coq Require Import ZArith List String.
-From RbpfV Require Import MachInt Ebpf AsmDefs AsmParser AsmModel AsmSpec AsmProofs AsmEncode.
+From RbpfV Require Import MachInt Ebpf AsmDefs AsmParser AsmModel AsmSpec AsmProofs AsmEncode TextParse GenText AsmText.
 From RbpfV.gen Require Import Asm.
 Import ListNotations.
 Open Scope Z_scope.
@@ -23,6 +23,16 @@ Theorem C13_program : forall U s parsed,
   parse U s = Ok parsed ->
   assemble U s = res_of (option_map bytes_of_insns (denote_prog parsed)).
 Proof. exact assemble_after_parse. Qed.
+
+(** END TO END, for every text in the documented syntax: optional leading white space; instruction lines made of a mnemonic,
+    white space and operands separated by `,` + any white space; numbers with optional sign in decimal or `0x` hexadecimal
+    (either case, any leading zeros: GenText.glit), registers `r` + digits, memory operands `[rN]` / `[rN+lit]` / `[rN-lit]`;
+    lines separated by white space.  The bytes are the specified encoding of what the text spells ([gline_val]: the mnemonic
+    and the denoted operand values), in source order; an error and no bytes when some instruction denotes nothing. *)
+Theorem C13_text : forall U lead l, ws_ok lead -> gprog_wf l ->
+  assemble U (lead ++ gprog_text l) =
+  res_of (option_map bytes_of_insns (denote_prog (map (fun x => gline_val (fst x)) l))).
+Proof. exact assemble_text. Qed.
 
 (** text the parser rejects yields an error and no bytes *)
 Theorem C13_parse_error : forall U s, (forall parsed, parse U s <> Ok parsed) -> exists e, assemble U s = Err e.
@@ -56,7 +66,27 @@ Example C13_example :
   /\ denote (cps "exit") [Integer 1] = None.
 Proof. vm_compute. repeat split. Qed.
 
+(** non-vacuity of C13_text: leading blank and newline; `add64<TAB> r007,<NL> +0x00FF`; then, after a blank, `ldxdw r1,[r10-8]`;
+    trailing newline -- the hypotheses hold and the bytes are the expected ones *)
+Definition ex_prog : list (gline * list Z) :=
+  [ (GLine (cps "add64") [9; 32] (Some (GReg (cps "007"), [([10; 32], GInt (GHex SPlus (cps "00FF")))])), [32]);
+    (GLine (cps "ldxdw") [32] (Some (GReg (cps "1"), [([], GMem (cps "10") (Some (GDec SMinus (cps "8"))))])), [10]) ].
+Example C13_text_example :
+  ws_ok [32; 10] /\ gprog_wf ex_prog /\
+  ([32; 10] ++ gprog_text ex_prog = cps " 
+add64	 r007,
+ +0x00FF ldxdw r1,[r10-8]
+") /\
+  assemble U_ascii ([32; 10] ++ gprog_text ex_prog) = Ok [0x07; 0x07; 0; 0; 0xff; 0; 0; 0;  0x79; 0xa1; 0xf8; 0xff; 0; 0; 0; 0].
+Proof.
+  split; [repeat constructor|]. split.
+  { cbn [gprog_wf ex_prog gline_wf gop_wf more_wf]. unfold TextParse.name_ok, greg_wf, glit_wf, has_sign, ws_ok.
+    repeat split; try discriminate; try (intros; discriminate); repeat constructor; vm_compute; try reflexivity; try discriminate. }
+  split; vm_compute; reflexivity.
+Qed.
+
 Print Assumptions C13_instruction.
 Print Assumptions C13_program.
+Print Assumptions C13_text.
 Print Assumptions C13_parse_error.
 Print Assumptions C13_tables_agree.
